@@ -154,7 +154,7 @@ const nShapes = 8
 
 func genPkg(t *rapid.T, dir, name string, min int) PkgSpec {
 	p := PkgSpec{Dir: dir, Name: name}
-	n := rapid.IntRange(min, 4).Draw(t, "nifaces")
+	n := min + uniform(t, 6-min+1, "nifaces")
 	used := map[string]bool{}
 	for i := 0; i < n; i++ {
 		nm := pick(t, "iname", ifaceNames)
@@ -414,14 +414,24 @@ func renderModule(m ModSpec) map[string]string {
 
 func assertFile(p PkgSpec) string {
 	var sb strings.Builder
+	needTesting := false
 	fmt.Fprintf(&sb, "package %s\n\n", p.Name)
 	for _, it := range p.Ifaces {
 		_, _, g := shape(it.Shape, it.Name)
+		inst := ""
 		if g {
-			fmt.Fprintf(&sb, "var _ %s[int] = (*%s[int])(nil)\n", it.Name, mockName(it.Name))
-		} else {
-			fmt.Fprintf(&sb, "var _ %s = (*%s)(nil)\n", it.Name, mockName(it.Name))
+			inst = "[int]"
 		}
+		fmt.Fprintf(&sb, "var _ %s%s = (*%s%s)(nil)\n", it.Name, inst, mockName(it.Name), inst)
+		if ast.IsExported(it.Name) {
+			// docs/template/testify.md "Mock Constructors": every mock object has a constructor, used as
+			// `m := NewMockRequester(t)`; type-checked only, never executed
+			needTesting = true
+			fmt.Fprintf(&sb, "func _(t *testing.T) { var m *%s%s = New%s%s(t); _ = m }\n", mockName(it.Name), inst, mockName(it.Name), inst)
+		}
+	}
+	if needTesting {
+		return strings.Replace(sb.String(), "\n\n", "\n\nimport \"testing\"\n\n", 1)
 	}
 	return sb.String()
 }
@@ -652,6 +662,43 @@ func yamlSignificant(s Step) bool {
 	return c != "real" && c != "plain"
 }
 
+// fullRunShape labels the package a full run mocks: how many interfaces, whether exported and
+// unexported ones share the single output file, which kind is declared first, generics, several files.
+func fullRunShape(p PkgSpec) []string {
+	order := declOrder(p)
+	cl := []string{fmt.Sprintf("full-run:ifaces=%d", len(order))}
+	exp, unexp, files, generic := 0, 0, map[int]bool{}, false
+	for _, it := range p.Ifaces {
+		if ast.IsExported(it.Name) {
+			exp++
+		} else {
+			unexp++
+		}
+		files[it.File] = true
+		if _, _, g := shape(it.Shape, it.Name); g {
+			generic = true
+		}
+	}
+	if exp > 0 && unexp > 0 {
+		cl = append(cl, "full-run:mixed-exported-unexported")
+		if ast.IsExported(order[0]) {
+			cl = append(cl, "full-run:mixed/exported-declared-first")
+		} else {
+			cl = append(cl, "full-run:mixed/unexported-declared-first")
+		}
+		if sort.StringsAreSorted(order) {
+			cl = append(cl, "full-run:mixed/declared-in-name-order")
+		}
+	}
+	if generic {
+		cl = append(cl, "full-run:generic")
+	}
+	if len(files) > 1 {
+		cl = append(cl, "full-run:multi-file")
+	}
+	return cl
+}
+
 func classify(c Case) (string, []string) {
 	cl := []string{"state=" + c.State, fmt.Sprintf("steps=%d", len(c.Steps))}
 	nt := false
@@ -711,6 +758,9 @@ func classify(c Case) (string, []string) {
 	}
 	if c.Full {
 		cl = append(cl, "full-run")
+		if r := c.Steps[0].Real; r >= 0 && r < len(c.Mod.Pkgs) {
+			cl = append(cl, fullRunShape(c.Mod.Pkgs[r])...)
+		}
 	}
 	if c.Decoy != "" {
 		cl = append(cl, "decoy-in-parent=."+c.Decoy)
@@ -924,6 +974,28 @@ func decoyConfig(m ModSpec) string {
 		m.importPath(len(m.Pkgs)-1) + ":\n    config:\n      all: true\n"
 }
 
+func sortedVals(m map[string]string) []string {
+	var l []string
+	for _, v := range m {
+		l = append(l, v)
+	}
+	sort.Strings(l)
+	return l
+}
+
+// declOrder lists the interfaces file by file in source order.
+func declOrder(p PkgSpec) []string {
+	var l []string
+	for f := 0; f < 2; f++ {
+		for _, it := range p.Ifaces {
+			if it.File == f {
+				l = append(l, it.Name)
+			}
+		}
+	}
+	return l
+}
+
 func indent(s string) string {
 	return "    " + strings.ReplaceAll(strings.TrimRight(s, "\n"), "\n", "\n    ")
 }
@@ -1113,6 +1185,7 @@ func (w *world) fullRun(s Step) *vh.Violation {
 	}
 	// every package-level interface of the named package has a mock type in some new Go file
 	found := map[string]bool{}
+	ctor := map[string]string{} // name of the mock type -> a package-level function returning a pointer to it
 	var newGo []string
 	for _, d := range diff {
 		if !strings.HasSuffix(d, ".go") {
@@ -1128,6 +1201,20 @@ func (w *world) fullRun(s Step) *vh.Violation {
 			if gd, ok := decl.(*ast.GenDecl); ok && gd.Tok == token.TYPE {
 				for _, sp := range gd.Specs {
 					found[sp.(*ast.TypeSpec).Name.Name] = true
+				}
+			}
+			if fd, ok := decl.(*ast.FuncDecl); ok && fd.Recv == nil && fd.Type.Results != nil && len(fd.Type.Results.List) == 1 {
+				if st, ok := fd.Type.Results.List[0].Type.(*ast.StarExpr); ok {
+					x := st.X
+					switch ix := x.(type) { // generic instantiation
+					case *ast.IndexExpr:
+						x = ix.X
+					case *ast.IndexListExpr:
+						x = ix.X
+					}
+					if id, ok := x.(*ast.Ident); ok && strings.EqualFold(fd.Name.Name, "new"+id.Name) {
+						ctor[id.Name] = fd.Name.Name
+					}
 				}
 			}
 		}
@@ -1152,6 +1239,22 @@ func (w *world) fullRun(s Step) *vh.Violation {
 			}
 		}
 		return w.fail("run/"+feature+"/missing-mock/"+exported, "no mock type generated for interface(s) %v of %s (new Go files: %v)", missing, s.Pkg, newGo)
+	}
+	// "All mock objects have constructor functions" (docs/template/testify.md, the template the written
+	// file selects): New<Mock type> for an exported interface as in every documented use; for an
+	// unexported one the docs fix no spelling, any new<mock type> (either case of the n) is accepted.
+	for _, it := range pkg.Ifaces {
+		mn := mockName(it.Name)
+		switch got, ok := ctor[mn]; {
+		case !ok:
+			exported := "exported"
+			if !ast.IsExported(it.Name) {
+				exported = "unexported"
+			}
+			return w.fail("run/"+feature+"/missing-constructor/"+exported, "the mock %s of interface %s has no constructor function (package has %d interfaces; constructors found: %v)", mn, it.Name, len(pkg.Ifaces), sortedVals(ctor))
+		case ast.IsExported(it.Name) && got != "New"+mn:
+			return w.fail("run/"+feature+"/constructor-name/exported-interface", "the constructor of %s (exported interface %s) is %s, documented use is New%s(t) (interfaces of the package in declaration order: %v)", mn, it.Name, got, mn, declOrder(pkg))
+		}
 	}
 	// compile oracle
 	wantFile := filepath.Join("m", pkg.Dir, "mocks_test.go")
